@@ -13,6 +13,18 @@ CHECKS = {
          "beside them, in f64 and f32; establishes nothing about inputs outside the generated classes.",
          "Trusted: the hand-written exact arithmetic (self-tested each run), the linear-scan bracket, magnitudes inside the exponent window.",
          "5/C01"),
+ "C02": ("property-based testing (generated spline data sets; structural oracle in exact arithmetic on sampled values)",
+         "Generated-input search over all boundary selections: knot values, one-cubic-per-interval (4 samples predict the 5th) and "
+         "continuity of S' and S'' at interior knots are decided by exact linear functionals of the implementation's own samples. "
+         "Independent of boundary-condition correctness; blind below the calibrated allowance.",
+         "Trusted: exact rational arithmetic, the calibrated constant K (constants.rs), sigma taken from the certified exact spline.",
+         "5/C02"),
+ "C03": ("property-based testing (differential against a certified exact rational spline + end-condition functionals)",
+         "Generated-input search: every sampled value of every lane is compared with the mathematically unique spline computed in "
+         "exact rational arithmetic (different formulation than the crate, self-certified per solve); end conditions are additionally "
+         "recovered from the implementation's values. All 25 (left,right) pairs, Periodic, per-lane selections, n=3/4/larger.",
+         "Trusted: exact arithmetic + certificate; allowance K*u*sigma calibrated on 300k data sets (K=2^18 f64, 2^15 f32): smaller errors are invisible.",
+         "5/C03"),
 }
 
 PENDING = {}
